@@ -151,6 +151,21 @@ Theorem C04_body_view_is_cache_key :
 Proof. exact body_view_is_cache_key. Qed.
 Print Assumptions C04_body_view_is_cache_key.
 
+(* What _body leaves in environ['wsgi.input'] — the buffered copy — presents the same body again to the next consumer
+   of the environ (a mounted WSGI application, a second Request without the cache keys) under the same Content-Length,
+   for every buffer size and read fragmentation of that consumer, and ends there: nothing of the server's stream beyond
+   Content-Length can be reached through it. *)
+Theorem C04_buffered_copy_presents_same_body_to_next_consumer :
+  forall (data : list N) (sc sc' : list nat) (buf buf' : nat) (cl : Z),
+    0 < buf -> 0 < buf' ->
+    forall body sp s1,
+      body_read_cl (stream_init data sc) buf None cl = BDone body sp s1 ->
+      exists sp' s2,
+        body_read_cl (stream_init body sc') buf' None cl = BDone body sp' s2
+        /\ pos s2 = length body /\ rest s2 = [].
+Proof. exact buffered_copy_rereads_same_body. Qed.
+Print Assumptions C04_buffered_copy_presents_same_body_to_next_consumer.
+
 (* Record (documented behaviour, DESIGN 0.6): a copy taken BEFORE the first
    access shares the one unread server stream with the original, so the object
    that reads second is presented the bytes that follow the body. *)
